@@ -179,34 +179,51 @@ def expansion_late(hist, p_add):
 
 # --------------------------------------------------------------------------
 
-def run_listen(hist, p_add, p_rm, via_helpers):
+def run_listen(hist, p_add, p_rm, via_helpers, rm_mode='global', p_add2=None):
     """listener added before event index p_add, removed before event index p_rm (None = never)"""
     viol = []
     with World() as w:
         impl = Impl(w)
         rec = Rec()
         calls_at = []
+        muted = set()          # objects the listener was unlisten()ed from
         exp = expansion(hist)
         for i, (label, ev, line) in enumerate(hist + (('END', None, None),)):
             if i == p_add:
                 impl.state.add_circuit_listener(rec)
                 impl.state.add_stream_listener(rec)
+            if p_add2 is not None and i == p_add2:
+                # the same listener registered a second time: still one notification per transition
+                impl.state.add_circuit_listener(rec)
+                impl.state.add_stream_listener(rec)
             if p_rm is not None and i == p_rm:
-                # removal: the API is unlisten() on the objects plus dropping it from the global lists
+                # removal: unlisten() on the live objects ...
                 for c in list(impl.state.circuits.values()):
                     if rec in c.listeners:
                         c.unlisten(rec)
+                        muted.add(('C', c.id))
                 for s in list(impl.state.streams.values()):
                     if rec in s.listeners:
                         s.unlisten(rec)
-                impl.state.circuit_listeners.remove(rec)
-                impl.state.stream_listeners.remove(rec)
+                        muted.add(('S', s.id))
+                if rm_mode == 'global':
+                    # ... plus dropping it from the global lists (so that future objects do not get it either)
+                    while rec in impl.state.circuit_listeners:
+                        impl.state.circuit_listeners.remove(rec)
+                    while rec in impl.state.stream_listeners:
+                        impl.state.stream_listeners.remove(rec)
             if ev is None:
                 break
             before = len(rec.calls)
             impl.event(ev, line)
             got = rec.calls[before:]
             registered = i >= p_add and (p_rm is None or i < p_rm)
+            if rm_mode == 'object' and p_rm is not None and i >= p_rm:
+                # still globally registered: objects that appear after the removal are heard, the muted ones are not
+                obj = ('C', 1) if label.startswith('C1-') else ('S', 1)
+                if label == 'S1-NEW' or label == 'C1-LAUNCHED':
+                    muted.discard(obj)        # a new object with a re-used id
+                registered = obj not in muted
             want = exp[i] if registered else []
             if got != want:
                 kind = label.split('-', 1)[1].split('-')[0]
@@ -393,12 +410,22 @@ def run_task(param, acc):
         if fam == 'listen':
             for p_add in range(0, n + 1):
                 for p_rm in [None] + list(range(p_add + 1, n + 1)):
-                    r = run_listen(hist, p_add, p_rm, False)
-                    rec_exec(acc, ('listen', labels, p_add, p_rm), r, dict(fam='listen', tier=acc.tier, h=hi_idx, p_add=p_add, p_rm=p_rm),
-                             cost=n * 10 + p_add + (0 if p_rm is None else 1))
+                    variants = [('global', None)]
+                    if p_rm is not None:
+                        variants.append(('object', None))
+                    else:
+                        variants += [('global', p2) for p2 in range(p_add, n + 1, 2)]
+                    for rm_mode, p_add2 in variants:
+                        r = run_listen(hist, p_add, p_rm, False, rm_mode, p_add2)
+                        if p_add2 is not None or rm_mode == 'object':
+                            r['viol'] = [(c, f + ('/registered-twice' if p_add2 is not None else '/unlisten-on-object'), d) for c, f, d in r['viol']]
+                        rec_exec(acc, ('listen', labels, p_add, p_rm, rm_mode, p_add2), r,
+                                 dict(fam='listen', tier=acc.tier, h=hi_idx, p_add=p_add, p_rm=p_rm, rm_mode=rm_mode, p_add2=p_add2),
+                                 cost=n * 10 + p_add + (0 if p_rm is None else 1) + (0 if p_add2 is None else 2))
                     if acc.want_recheck(0.01):
                         r2 = run_listen(hist, p_add, p_rm, False)
-                        acc.recheck((r['obs'], r['viol']), (r2['obs'], r2['viol']))
+                        r1 = run_listen(hist, p_add, p_rm, False)
+                        acc.recheck((r1['obs'], r1['viol']), (r2['obs'], r2['viol']))
                     last = ('listen', labels, p_add, p_rm)
         elif fam == 'waits':
             for which in ('built', 'closed'):
@@ -429,7 +456,9 @@ def run_task(param, acc):
 def replay(p):
     hist = hist_for(p['tier'])[p['h']]
     if p['fam'] == 'listen':
-        r = run_listen(hist, p['p_add'], p['p_rm'], False)
+        r = run_listen(hist, p['p_add'], p['p_rm'], False, p.get('rm_mode', 'global'), p.get('p_add2'))
+        if p.get('p_add2') is not None or p.get('rm_mode') == 'object':
+            r['viol'] = [(c, f + ('/registered-twice' if p.get('p_add2') is not None else '/unlisten-on-object'), d) for c, f, d in r['viol']]
     elif p['fam'] == 'waits':
         r = run_waits(hist, p['p1'], p['p2'], p['which'])
     else:
